@@ -293,7 +293,7 @@ def register(PROPS):
               "trusted_extra": ["the controlled scheduler parks threads only at the lasso_verif points: interleavings finer than that (and weak-memory reorderings; the hardware is x86-TSO) are not exhibited by the tie, they are covered by the model-level theorems only",
                                 "the point-granularity argument of DESIGN.md section 4.4 (between two points a thread touches shared mutable state at most once) is made on paper",
                                 "DashMap is modelled as an association list guarded by per-shard reader-writer locks; its internals are not verified"]}
-    PROPS["C03"] = dict(common, monitors=["C03", "C07"])
+    PROPS["C03"] = dict(common, monitors=["C03", "C07"], translate=["threaded"])
     PROPS["C05"] = dict(common, monitors=["C05"], orderings=True, props_extra=["C05R"], sreplay=True, translate=["lockfree"],
                         trusted_extra=common["trusted_extra"] + ["C05 data-race clause: coq/Sync.v is a hand-written release/acquire view machine (promise-free; SeqCst treated as AcqRel; locks as release/acquire channels) running a hand-abstracted synchronisation skeleton of the arena; only the 16 atomic orderings and two textual-order facts are extracted from the source (tools/extract_orderings.py, which fails on any atomic access it cannot attribute)"])
-    PROPS["C09"] = dict(common, monitors=["C09"], props_extra=["C09L"])
+    PROPS["C09"] = dict(common, monitors=["C09"], props_extra=["C09L"], translate=["lockfree"])
